@@ -179,7 +179,10 @@ class MeshTet1(MeshSimplex, Mesh3D):
         # mesh, so the noise is added relative to the centred coordinates
         np.random.seed(1337)
         p = p - p.mean(axis=1)[:, None]
-        p = p + 1e-10 * np.abs(p).max() * np.random.random(p.shape)
+        # (drawn point by point: the noise of a point does not change when
+        # the closure adds points and the elements are sorted again)
+        p = p + (1e-10 * np.abs(p).max()
+                 * np.random.random(p.shape[::-1]).T)
 
         l01 = np.sqrt(np.sum((p[:, t[0, marked]] - p[:, t[1, marked]]) ** 2,
                              axis=0))
